@@ -1,30 +1,58 @@
 #!/usr/bin/env python3
-"""Run the quick check of each seeded change's property with the change applied
-to /repo (git apply / git checkout -- .), record exit code and VIOLATION lines.
-usage: detect_seeds.py [id ...]   (default: all of seeded/C*)"""
+"""Detection matrix: for each seeded change, run the quick check of its
+property on a tree that carries the change, record exit code and failed checks.
+The tree is a scratch git worktree of /repo HEAD with the patch applied
+(VERIF_REPO=<worktree>), so several seeds can run in parallel and /repo stays
+untouched; `--in-place` instead applies the patch to /repo itself and undoes
+it afterwards (git apply / git checkout -- .), one seed at a time.
+usage: detect_seeds.py [--in-place] [--par N] [id ...]"""
 import glob, json, os, re, subprocess, sys, time
+from concurrent.futures import ThreadPoolExecutor
 V = os.path.dirname(os.path.dirname(os.path.abspath(__file__)))
-ids = sys.argv[1:] or sorted(os.path.basename(d.rstrip("/")) for d in glob.glob(os.path.join(V, "seeded", "C*/")))
-out = {}
+args = sys.argv[1:]
+in_place = "--in-place" in args
+par = 3
+if "--par" in args:
+    par = int(args[args.index("--par") + 1])
+ids = [a for a in args if re.match(r"^C\d+-", a)] or sorted(os.path.basename(d.rstrip("/")) for d in glob.glob(os.path.join(V, "seeded", "C*/")))
 res_p = os.path.join(V, "seeded", "detection.json")
-if os.path.exists(res_p):
-    out = json.load(open(res_p))
-for sid in ids:
+out = json.load(open(res_p)) if os.path.exists(res_p) else {}
+
+def one(sid):
     d = os.path.join(V, "seeded", sid)
     prop = json.load(open(os.path.join(d, "meta.json")))["property"]
-    assert subprocess.run(["git", "-C", "/repo", "status", "--porcelain", "-uno"], stdout=subprocess.PIPE, text=True).stdout.strip() == "", "/repo dirty"
-    subprocess.check_call(["git", "-C", "/repo", "apply", os.path.join(d, "patch.diff")])
+    env = dict(os.environ)
+    wt = None
+    if in_place:
+        subprocess.check_call(["git", "-C", "/repo", "apply", os.path.join(d, "patch.diff")])
+    else:
+        wt = f"/tmp/seedrepo-{sid}"
+        subprocess.run(["git", "-C", "/repo", "worktree", "remove", "--force", wt], stderr=subprocess.DEVNULL)
+        subprocess.check_call(["git", "-C", "/repo", "worktree", "add", "--detach", wt, "HEAD"], stdout=subprocess.DEVNULL, stderr=subprocess.DEVNULL)
+        subprocess.check_call(["git", "-C", wt, "apply", os.path.join(d, "patch.diff")])
+        env["VERIF_REPO"] = wt
     t0 = time.time()
     try:
-        p = subprocess.run([os.path.join(V, "bin", "check"), prop, "--tier", "quick", "--jobs", "7", "--no-replay"],
-                           cwd=V, stdout=subprocess.PIPE, stderr=subprocess.STDOUT, text=True, timeout=7200)
+        p = subprocess.run([os.path.join(V, "bin", "check"), prop, "--tier", "quick", "--jobs", "5", "--no-replay"],
+                           cwd=V, env=env, stdout=subprocess.PIPE, stderr=subprocess.STDOUT, text=True, timeout=10800)
         rc, txt = p.returncode, p.stdout
     finally:
-        subprocess.check_call(["git", "-C", "/repo", "checkout", "--", "."])
+        if in_place:
+            subprocess.check_call(["git", "-C", "/repo", "checkout", "--", "."])
+        else:
+            subprocess.run(["git", "-C", "/repo", "worktree", "remove", "--force", wt])
     viol = re.findall(r"failed check in (\S+): (.*)", txt)
     inconc = re.findall(r"^INCONCLUSIVE: (.*)$", txt, re.M)
-    out[sid] = {"property": prop, "exit": rc, "detected": rc == 1, "failed_checks": viol[:6], "inconclusive": inconc[:6], "wall_s": round(time.time() - t0)}
-    print(sid, out[sid], flush=True)
-    json.dump(out, open(res_p, "w"), indent=1)
-# the evidence files now describe mutated trees: they must be regenerated on the unchanged tree
-print("NOTE: re-run the checks on the unchanged tree to regenerate evidence/")
+    r = {"property": prop, "exit": rc, "detected": rc == 1, "failed_checks": viol[:8], "inconclusive": inconc[:6],
+         "wall_s": round(time.time() - t0), "repo_head": subprocess.check_output(["git", "-C", "/repo", "rev-parse", "--short", "HEAD"], text=True).strip(),
+         "verif_head": subprocess.check_output(["git", "-C", V, "rev-parse", "--short", "HEAD"], text=True).strip()}
+    if rc not in (0, 1):
+        r["output_tail"] = txt[-1500:]
+    print(sid, json.dumps(r), flush=True)
+    return sid, r
+
+with ThreadPoolExecutor(max_workers=1 if in_place else par) as ex:
+    for sid, r in ex.map(one, ids):
+        out[sid] = r
+        json.dump(out, open(res_p, "w"), indent=1, sort_keys=True)
+print("NOTE: evidence/ now describes mutated trees: re-run the checks on the unchanged tree")
